@@ -36,7 +36,7 @@ pub fn gen_native(r: &mut Rng) -> NativeType {
 
 /// random column type; `depth` bounds the nesting
 pub fn gen_type(r: &mut Rng, depth: u32) -> Ty {
-    if depth == 0 || r.chance(2, 5) {
+    if depth == 0 || r.chance(1, 4) {
         return nat(gen_native(r));
     }
     match r.below(12) {
@@ -475,14 +475,14 @@ fn main() {
         match r.below(100) {
             // dynamic path, values of the type
             0..=39 => {
-                let d = r.range(0, depth as u64) as u32;
+                let d = r.range(0, depth as u64).max(r.range(0, depth as u64)) as u32;
                 let t = gen_type(&mut r, d);
                 let c = gen_cell(&mut r, &t, 0);
                 emit(&mut out, format!("R {} {}", s_type(&t), s_cell(&c)));
             }
             // dynamic path with mismatches (type errors, arity, names)
             40..=47 => {
-                let d = r.range(0, depth as u64) as u32;
+                let d = r.range(0, depth as u64).max(r.range(0, depth as u64)) as u32;
                 let t = gen_type(&mut r, d);
                 let c = gen_cell(&mut r, &t, 3);
                 emit(&mut out, format!("R {} {}", s_type(&t), s_cell(&c)));
